@@ -23,7 +23,7 @@ def model(ctx):
     scns = ctx.tlc_gen("Sys_AuthGate", "Gen_AuthGate.cfg", num=300 if T else 40, depth=60)
     ctx.write_scenarios("authgate", scns)
     ctx.go_test("core", "./internal/integration_tests/", "TestVerif_C01$",
-                ["harness/core/internal/integration_tests/e2e_common_test.go", "harness/core/internal/integration_tests/c01_test.go"], timeout=1500)
+                ["harness/core/internal/integration_tests/e2e_common_test.go", "harness/core/internal/integration_tests/c01_test.go"], timeout=1500 if ctx.thorough else 300)
 
 
 def system(ctx):
